@@ -70,6 +70,7 @@ def run(C, R):
                            'state_id is written on a path of %s' % m_['path'], '%s:%s' % (m_['file'], m_['line']))
         R.floor('C13.R1 id-write-sites[%s]' % cfg, nw, 1)
         send = F.one_fn(impl_adt=STATE, name='send')
+        from common import payload_param as _pp13
         paths = E.run(send['path'])
         R.add_paths(send['path'], len(paths))
         for path in paths:
@@ -88,7 +89,7 @@ def run(C, R):
             final_id0 = E.read(type('S', (), {'store': path.store})(), (('P', 'self'), 'state_id', '0'))
             if okret:
                 stored = [e for e in path.events if e['k'] == 'write' and fields_of(e['loc']) == ('value',)
-                          and e['val'][0] == 'agg' and e['val'][2] == 'Some' and contains(e['val'], ('param', 'value'))]
+                          and e['val'][0] == 'agg' and e['val'][2] == 'Some' and contains(e['val'], _pp13(send))]
                 drained = [e for e in path.events if e['k'] == 'qop' and e['op'] in ('reverse_drain', 'drain')]
                 inc = len(ws) == 1 and final_id0 == ('bin', 'Add', SELF_ID0, ('const', 1))
                 if inc and stored and drained and closed == 0 and maxed == 0:
@@ -113,6 +114,15 @@ def run(C, R):
         for name, requested in (('try_receive', ('param', 'state_id')),
                                 ('receive_or_register', ('init', (('P', 'wait_node'), 'data', 'state_id')))):
             fn = F.one_fn(impl_adt=STATE, name=name)
+            if name == 'try_receive':
+                # the requested id is the parameter of type StateId, whatever it is called
+                _names = {}
+                for d_ in fn['debug']:
+                    if not d_['place']['p']:
+                        _names.setdefault(d_['place']['l'], d_['name'])
+                for i_ in range(1, fn['arg_count'] + 1):
+                    if (fn['locals'][i_]['ty'].get('path') or '').endswith('StateId'):
+                        requested = ('param', _names.get(i_, 'arg%d' % i_))
             if name == 'receive_or_register':
                 from common import own_node_roots as _onr
                 _own = (list(_onr(F, fn)) or [(('P', 'wait_node'),)])[0]
